@@ -9,7 +9,7 @@ ENGINE = 'E1 full product (writer level) + size ladder end-to-end'
 RULE = ("writer level: every vrl of the tier x every body length 1..60 and k*cap+-14 x {EFLR, IFLR}, write must "
         "succeed and pass the C01/C02 oracles; end-to-end: the minimal specification at every vrl of the tier (record length given as a keyword, through a ready-made label, or set on the label afterwards), and a "
         "size ladder (frame row width 1..24 bytes, frame/channel/no-format name lengths 1..255, payloads 0..30) at "
-        "small and default record lengths; non-trivial = the write was attempted on a valid specification")
+        "small and default record lengths; ordered pairs of record lengths written one after the other in one process; non-trivial = the write was attempted on a valid specification")
 ASSUMPTIONS = ["strict reader mc/rp66.py", "reference model mc/model.py"]
 
 
@@ -20,6 +20,7 @@ def shards(tier):
     out += [{'kind': 'min', 'vrls': v[i:i + n]} for i in range(0, len(v), n)]
     lad = [20, 22, 30, 32, 34, 64, 128, 8192] if tier == 'quick' else [20, 22, 24, 26, 28, 30, 32, 34, 40, 64, 128, 1000, 8192, 16384]
     out += [{'kind': 'ladder', 'vrl': x} for x in lad]
+    out.append({'kind': 'pairs'})
     return out
 
 
@@ -42,6 +43,14 @@ def cases(shard, tier):
             for L in (1, 11, cap - 1, cap + 1, 3 * cap + 5):
                 yield {'k': 'wl', 'vrl': vrl, 'recs': [['I1', L, 1], ['E3', L + 1, 2], ['I0', max(L - 1, 1), 3]], 'ocs': vrl}
                 yield {'k': 'wl', 'vrl': vrl, 'recs': [['I1', L, 1], ['E3', L + 1, 2], ['I0', max(L - 1, 1), 3]], 'ocs': vrl + 2}
+    elif shard['kind'] == 'pairs':
+        # two files written one after the other in one process with different record lengths: what can be written must
+        # not depend on what was written before
+        vs = [8192, 16384, 1024, 256, 100, 64, 32, 22, 20]
+        for a in vs:
+            for b in vs:
+                if a != b:
+                    yield {'k': 'pair', 'vrl': b, 'first_vrl': a}
     elif shard['kind'] == 'min':
         for vrl in shard['vrls']:
             yield {'k': 'min', 'vrl': vrl}
@@ -62,6 +71,8 @@ def cases(shard, tier):
 
 def make_spec(case):
     k = case['k']
+    if k == 'pair':
+        return S.minimal_spec(vrl=case['vrl'], rows=2)
     if k == 'min':
         sp = S.minimal_spec(vrl=case['vrl'], rows=2)
         if case.get('route') == 'object':
@@ -121,6 +132,8 @@ def run_case(case):
         cls = 'ok:short-body' if L < 12 else 'ok:small-capacity' if case['vrl'] < 32 else \
             'ok:multi-segment' if L > case['vrl'] - 8 else 'ok:single-segment'
         return Outcome(cls, viol, True, digest=wl.digest_of(res))
+    if case['k'] == 'pair':
+        S.run_spec(S.minimal_spec(vrl=case['first_vrl'], rows=2), fname='first.dlis')
     sp = make_spec(case)
     # alternate between a large output buffer and the smallest accepted one (a flush after nearly every record)
     if (case.get('width', 0) + case.get('n', 0) + case['vrl']) % 4 == 2 or case['k'] == 'min':
